@@ -52,7 +52,7 @@ PROP = {'gen': [],
                're-extracted from src/keys.rs on every run (C18_key_order_is_source_order). Specification-side facts are Lemmas, not '
                'counted as obligations. Model tied to the code by a differential run; the predicate evaluates the English clauses '
                'directly on the stream of handle() answers; idle / pending / the known class are decided on the dictionary side.',
- 'level_note': 'Trusted: Coq kernel + vm_compute; hand-written models validated by the correspondence run; str::to_lowercase is an '
+ 'level_note': 'Trusted: Coq kernel + vm_compute; translate/c18keys.py; hand-written models validated by the correspondence run; str::to_lowercase is an '
                'oracle: the parser theorems hold for every function satisfying lower_spec (identity on ASCII strings without capitals; '
                'only strings beginning with f/F lower-case to something beginning with f), and each case checks these two facts on '
                'the answers the real to_lowercase gave; 64-bit usize. No axioms (Print Assumptions: closed under the global context).',
@@ -73,7 +73,8 @@ PROP = {'gen': [],
                   'around usize::MAX, structured and malformed strings)',
                   'str::to_lowercase as an oracle constrained by lower_spec (Keys/KeyParseProofs.v); the two assumed facts are '
                   're-checked on every answer used in a case',
-                  'specification: dictionary of chords (reg, spec_lookup, spec_override, spec_handle) written from the property text',
+                  'specification: dictionary of chords (reg, spec_lookup, spec_override) written from the property text and validated by the lemma C18_last_writer; the matcher clauses are evaluated on the handle() stream, spec_handle serves as bookkeeping (pending keys, class decision) only',
+                  'translate/c18keys.py: variant order of enum KeyName and the KeyMod constants re-extracted from src/keys.rs on every run (Gen/C18Keys.v)',
                   HARNESS],
  'assumptions': ['the empty chord is not a chord: registering it is a no-op (as in the code) and lookups of it are outside the statement',
                  'KNOWN FINDING (class unbound-key-continues-pending-chord): "an unbound key never prevents the next chord" is proved '
